@@ -371,6 +371,29 @@ fn main() {
             });
             sink.count(&format!("text entry points: strings <= {n} over {} symbols", text_alpha.len()), texts.len() as u64);
             colour_sweeps(&sink, thorough);
+            // the strip stream (and the pass-through modes) over an inner writer that short-writes and fails:
+            // the fault branches do offset arithmetic on the caller's buffer; only panics are this property's business
+            for mode in [vchecks::fault_sys::Mode::Strip, vchecks::fault_sys::Mode::PassAnsi] {
+                let k = if thorough { 3 } else { 2 };
+                let (fs, runs, _, _) = vchecks::fault_sys::sweep(mode, if thorough { 5 } else { 4 }, &move |_| k);
+                for f in fs.iter().filter(|f| f.clause == "panic") {
+                    sink.report(&f.system, "panic", &unhex(&f.case[0]), format!("{} ({} {})", f.message, f.case[1], f.case[2]));
+                }
+                sink.count(&format!("{mode:?} stream over a scripted inner writer: inputs <= {} tokens x drivers x scripts with <= {k} deviations", if thorough { 5 } else { 4 }), runs);
+            }
+            // large inputs (around the 4/8/16/64 KiB marks), the unit shifted over every offset
+            {
+                let sizes: &[usize] = if thorough { &[4095, 4096, 4097, 8191, 8192, 8193, 16385, 20000, 65537, 131073] } else { &[8191, 8192, 8193, 20000] };
+                let cases: Vec<(usize, usize)> = sizes.iter().flat_map(|&n| (0..vchecks::fault_sys::LARGE_UNIT.len()).map(move |s| (n, s))).collect();
+                cases.par_iter().for_each(|&(n, shift)| {
+                    let inp = vchecks::fault_sys::large_input(n, shift);
+                    check_bytes_input(&sink, &inp);
+                    if let Ok(t) = std::str::from_utf8(&inp) {
+                        check_str_input(&sink, t, false);
+                    }
+                });
+                sink.count("byte and text entry points: large inputs, unit shifted over every offset", cases.len() as u64);
+            }
         }
     }
     let findings = sink.findings.into_inner().unwrap();
